@@ -593,3 +593,76 @@ def random_join_units(rnd, n):
                 using = sorted(common)
         units.append({'id': 'j%d' % i, 'env': env, 'cc': True, 'term': {'k': 'join', 'how': how, 'ops': ops, 'using': using, 'body': body}})
     return units
+
+
+# ---- analytic functions (C06) -----------------------------------------------------------------------
+AN_WINDOWED = ['sum', 'avg', 'count', 'min', 'max', 'median', 'stddev_pop', 'stddev_samp', 'var_pop', 'var_samp', 'first_value', 'last_value']
+
+
+def _bound(rnd, side):
+    r = rnd.random()
+    if r < 0.2:
+        return {'n': -1, 'd': 'preceding' if side == 'lo' else 'following'}
+    if r < 0.35:
+        return {'n': 0, 'd': 'current'}
+    return {'n': rnd.choice([0, 1, 2, 3]), 'd': rnd.choice(['preceding', 'following'])}
+
+
+def _pos(b):
+    return 0 if b['d'] == 'current' else (-10 ** 6 if b['n'] == -1 and b['d'] == 'preceding' else 10 ** 6 if b['n'] == -1 else (-b['n'] if b['d'] == 'preceding' else b['n']))
+
+
+def random_frame(rnd, allow_range):
+    for _ in range(50):
+        lo, hi = _bound(rnd, 'lo'), _bound(rnd, 'hi')
+        if _pos(lo) <= _pos(hi) and not (lo['n'] == -1 and lo['d'] == 'following') and not (hi['n'] == -1 and hi['d'] == 'preceding'):
+            return [{'kind': 'range' if allow_range and rnd.random() < 0.3 else 'rows', 'lo': lo, 'hi': hi}]
+    return [{'kind': 'rows', 'lo': {'n': -1, 'd': 'preceding'}, 'hi': {'n': 0, 'd': 'current'}}]
+
+
+def random_analytic_units(rnd, n, maxrows=5):
+    """Analytic invocations with total orderings (no ties): partition by Id_1, order by Id_2 (the remaining identifier,
+    unique inside a partition) or by a measure with distinct values; every frame shape with offsets 0-3 / unbounded."""
+    units = []
+    for i in range(n):
+        nrows = rnd.choice([0, 1, 2, 3, 4, 5, maxrows])
+        mt = rnd.choice(['Integer', 'Integer', 'Number'])
+        comps = [gen.comp('Id_1', 'I', 'Integer'), gen.comp('Id_2', 'I', 'Integer'), gen.comp('Me_1', 'M', mt), gen.comp('Me_2', 'M', 'Integer')]
+        rows, seen = [], set()
+        distinct = rnd.sample(range(-9, 30), 12)
+        while len(rows) < nrows:
+            k = (rnd.choice([1, 1, 2]), rnd.randrange(1, 7))
+            if k in seen:
+                continue
+            seen.add(k)
+            v = gen.value(rnd, mt, 0.2)
+            rows.append({'Id_1': I(k[0]), 'Id_2': I(k[1]), 'Me_1': v, 'Me_2': I(distinct[len(rows)])})
+        ds = gen.shuffled(rnd, {'comps': comps, 'rows': rows})
+        op = rnd.choice(AN_WINDOWED + ['lag', 'lead', 'rank', 'ratio_to_report'])
+        part = rnd.choice([['Id_1'], ['Id_1'], []])
+        level = rnd.choice(['calc', 'calc', 'ds'])
+        if op == 'rank':
+            level = 'calc'
+        if op == 'ratio_to_report':
+            part = ['Id_1']
+        # ordering by a measure is only accepted at dataset level (inside calc the engine resolves order keys among identifiers)
+        okey = (rnd.choice(['Id_2', 'Id_2', 'Me_2']) if level == 'ds' else 'Id_2') if part else (rnd.choice(['Me_2', 'ids']) if level == 'ds' else 'ids')
+        order = [['Id_1', rnd.choice(['asc', 'desc'])], ['Id_2', rnd.choice(['asc', 'desc'])]] if okey == 'ids' else [[okey, rnd.choice(['asc', 'desc'])]]
+        t = {'k': 'an', 'op': op, 'part': part, 'order': order, 'frame': [], 'params': []}
+        if op in AN_WINDOWED:
+            t['frame'] = random_frame(rnd, allow_range=len(order) == 1)
+        elif op in ('lag', 'lead'):
+            t['params'] = [I(rnd.choice([0, 1, 2, 3]))] + ([I(99)] if rnd.random() < 0.4 and mt == 'Integer' else [])
+        elif op == 'ratio_to_report':
+            t['order'] = []
+        if op == 'rank' or level == 'calc':
+            t['x'] = {'k': 'none'} if op == 'rank' else var('Me_1')
+            term = {'k': 'clause', 'op': 'calc', 'ds': var('DS_1'), 'items': [{'name': 'An_1', 'role': 'M', 'expr': t}]}
+            if op != 'rank' and rnd.random() < 0.3:        # a second analytic item in the same calc
+                t2 = dict(t, op=rnd.choice(['sum', 'max', 'count']), frame=random_frame(rnd, allow_range=False), params=[], order=order)
+                term['items'].append({'name': 'An_2', 'role': 'M', 'expr': t2})
+        else:
+            t['x'] = var('DS_1')
+            term = t
+        units.append({'id': 'w%d' % i, 'env': {'DS_1': ds}, 'term': term, 'cc': True})
+    return units
